@@ -716,6 +716,8 @@ def cooling_formulas(P, rep, rule="EXPR.cooling"):
         return B.sym(X)
 
     n_ok = 0
+    extracted = {}
+    syms = dict(Tt=Tt, Tb=Tb, d=d, L=L, kappa=kap, v=v, dist=dist, age=age)
     # half space
     for F in P.funcs_named("WorldBuilder::Features::OceanicPlateModels::Temperature::HalfSpaceModel::get_temperature"):
         n_ok += 1
@@ -726,6 +728,8 @@ def cooling_formulas(P, rep, rule="EXPR.cooling"):
             rep.unknown(rule, "%s: %s" % (F.qn, e))
             continue
         want = Tb + (Tt - Tb) * sp.erfc(d / (2 * sp.sqrt(kap * dist / v)))
+        if val is not None:
+            extracted["half space"] = (F, val)
         if val is not None and eq(val, want):
             rep.ok(rule, "half space model = T_b + (T_t - T_b) erfc(d/(2 sqrt(kappa dist/v)))", F.loc, F.qn)
         else:
@@ -754,6 +758,7 @@ def cooling_formulas(P, rep, rule="EXPR.cooling"):
             else:
                 term = (Tb - Tt) * (2 / (n * sp.pi)) * sp.sin(n * sp.pi * d / L) * sp.exp(-n ** 2 * sp.pi ** 2 * kap * age / L ** 2)
             wbase = Tt + (Tb - Tt) * d / L
+            extracted["plate model" if with_v else "constant-age plate model"] = (F, base, delta, n)
             init_ok = lp["init"] == 1
             cnd = norm.render(P, lp["cond"], nocast=True).replace(" ", "")
             mm = re.match(r"^\(\w+<\((\w+)\+1\)\)$", cnd) or re.match(r"^\(\w+<=(\w+)\)$", cnd)
@@ -801,3 +806,46 @@ def cooling_formulas(P, rep, rule="EXPR.cooling"):
         else:
             rep.violation(rule, "gaussian plume returns %s" % val, F.loc, F.qn, str(val)[:160], "expected %s" % want, key=rule + "|gaussian", witness="point off the plume axis")
     rep.floor(rule, n_ok, 4, "cooling / plume closed forms")
+    return extracted, syms
+
+
+def envelope(P, rep, extracted, syms, rule="EXPR.envelope"):
+    """C20, the clauses decidable by calculus on the extracted closed forms"""
+    rep.rule(rule, "on the closed forms extracted from the code: (B) the prescribed boundary temperatures are attained -- half space: T(depth 0) = "
+                   "T_top and T -> T_bottom as depth -> infinity; plate models: T(0) = T_top and T(max depth) = T_bottom (every series term vanishes "
+                   "there); (E) half space: T is a convex combination T_b + w (T_t - T_b) with w = erfc(nonnegative) in [0,1], dT/d(depth) has the sign "
+                   "of (T_b - T_t) and dT/d(ridge distance) the sign of (T_b - T_t) (older is colder at fixed depth iff T_t < T_b)")
+    Tt, Tb, d, L, dist, v = syms["Tt"], syms["Tb"], syms["d"], syms["L"], syms["dist"], syms["v"]
+    if "half space" in extracted:
+        F, val = extracted["half space"]
+        top = sp.simplify(val.subs(d, 0))
+        bottom = sp.limit(val, d, sp.oo)
+        if sp.simplify(top - Tt) == 0 and sp.simplify(bottom - Tb) == 0:
+            rep.ok(rule, "half space: T(0) = T_top, T(inf) = T_bottom", F.loc, F.qn)
+        else:
+            rep.violation(rule, "half space boundary values: T(0) = %s, T(inf) = %s" % (top, bottom), F.loc, F.qn, "", "prescribed boundary temperatures are not attained",
+                          key=rule + "|halfspace|boundary", witness="query at depth 0 away from the ridge")
+        w = sp.simplify((val - Tb) / (Tt - Tb))
+        is_erfc = w.func == sp.erfc and (w.args[0].is_nonnegative or w.args[0].is_positive)
+        dd = sp.simplify(sp.diff(val, d) / (Tb - Tt))
+        da = sp.simplify(sp.diff(val, dist) / (Tb - Tt))
+        if is_erfc and dd.is_positive and da.is_positive is False and sp.simplify(-da).is_positive:
+            rep.ok(rule, "half space: T = T_b + erfc(u>=0) (T_t - T_b); dT/ddepth ~ +(T_b - T_t); dT/ddist ~ -(T_b - T_t)", F.loc, F.qn)
+        else:
+            rep.violation(rule, "half space envelope/monotonicity: weight %s, dT/dd/(Tb-Tt) = %s, dT/ddist/(Tb-Tt) = %s" % (w, dd, da), F.loc, F.qn, "",
+                          "the profile is not a convex combination of its end members rising with depth and falling with age", key=rule + "|halfspace|envelope",
+                          witness="T_top < T_bottom, increasing depth / distance from the ridge")
+    for label in ("plate model", "constant-age plate model"):
+        if label not in extracted:
+            continue
+        F, base, delta, n = extracted[label]
+        t0 = sp.simplify(base.subs(d, 0))
+        tL = sp.simplify(base.subs(d, L))
+        s0 = sp.simplify(delta.subs(d, 0))
+        sL = sp.simplify(delta.subs(d, L))
+        if sp.simplify(t0 - Tt) == 0 and sp.simplify(tL - Tb) == 0 and s0 == 0 and sL == 0:
+            rep.ok(rule, "%s: T(0) = T_top, T(max depth) = T_bottom (series terms vanish at both boundaries for integer n)" % label, F.loc, F.qn)
+        else:
+            rep.violation(rule, "%s boundary values: base(0) = %s, base(L) = %s, term(0) = %s, term(L) = %s" % (label, t0, tL, s0, sL), F.loc, F.qn, "",
+                          "prescribed boundary temperatures are not attained", key="%s|%s|boundary" % (rule, label.replace(" ", "-")),
+                          witness="query at depth 0 and at the model's max depth")
